@@ -275,3 +275,35 @@ func joinSorted(m map[string]bool) string {
 	sort.Strings(s)
 	return strings.Join(s, ",")
 }
+
+// importRules runs another property's check and copies the obligations of
+// the named rules that are necessary conditions of this property as well
+// (select == nil: every obligation of the rule; otherwise only constructs it
+// accepts). Unresolved anchors of the other check whose construct contains
+// one of `anchors` are copied too, so a lost anchor cannot silently empty
+// the import. Returns the number of obligations copied.
+func importRules(c *Ctx, r *Report, check func(*Ctx, *Report), prefix string, rules []string, sel func(Obligation) bool, anchors ...string) int {
+	tmp := newReport("tmp")
+	check(c, tmp)
+	want := map[string]bool{}
+	for _, x := range rules {
+		want[x] = true
+	}
+	n := 0
+	for _, o := range tmp.Obls {
+		switch {
+		case want[o.Rule] && (sel == nil || sel(o)):
+			o.Rule = prefix + o.Rule
+			r.Obls = append(r.Obls, o)
+			n++
+		case o.Rule == "anchor-unresolved":
+			for _, a := range anchors {
+				if strings.Contains(o.Construct, a) {
+					r.Obls = append(r.Obls, o)
+					n++
+				}
+			}
+		}
+	}
+	return n
+}
